@@ -19,18 +19,20 @@ Definition C10_model_ok (c : C10_case) : bool :=
   | _, _ => true
   end.
 
-(* types both sides support and values of them *)
-Definition c10_scope (t : ty) (x : val) : bool := wf_ty t && is_aggr t && stage2 t && wt t x.
+(* types both sides support and values of them; the cases of the remaining C09 class in S1/S2
+   (XCDR1 present optional member with an empty value) are reported by C09 *)
+Definition c10_scope (v : ver) (t : ty) (x : val) : bool :=
+  wf_ty t && sup v t && is_aggr t && stage2 t && wt t x && N.eqb (known_class v t x) 0.
 
 Definition C10_oracle_ok (c : C10_case) : bool :=
   match c_op c, c_out c with
   | Rt v e t x, OSer bs dec =>
-    if c10_scope t x then
+    if c10_scope v t x && (blen bs <=? size_limit v t) then
       list_eqb Z.eqb bs (spec_encode v e t x) &&
       match dec with Ok y => val_eqb x y | _ => false end
     else true
-  | Rt v e t x, OSerFail _ => negb (c10_scope t x)
-  | Rt v e t x, OAbort => negb (c10_scope t x)
+  | Rt v e t x, OSerFail _ => negb (c10_scope v t x)
+  | Rt v e t x, OAbort => negb (c10_scope v t x)
   | _, _ => true
   end.
 
